@@ -20,6 +20,7 @@ def companions():
     res = {
         "LocalStoreFSMC.tla": {"FsConf.tla": fsconf.module("crash_first_keep", "atomic")},
         "FsTrace.tla": {},
+        "SigTrace.tla": {},
         "StoreCodec.tla": {"CodecConf.tla": codecconf()},
         "StoreDbfs.tla": {"DbfsConf.tla": dbfsconf()},
         "StoreViews.tla": {"ViewsConf.tla": viewsconf()},
